@@ -13,6 +13,7 @@ import (
 	_ "verif/checks/c08"
 	_ "verif/checks/c09"
 	_ "verif/checks/c10"
+	_ "verif/checks/c11"
 	_ "verif/checks/c12"
 	_ "verif/checks/c13"
 	_ "verif/checks/c14"
@@ -21,6 +22,7 @@ import (
 	_ "verif/checks/c17"
 	_ "verif/checks/c18"
 	_ "verif/checks/c19"
+	_ "verif/checks/c19c"
 	"verif/internal/ev"
 )
 
